@@ -269,7 +269,7 @@ static int
 be_filter_enable(struct bufferevent *bev, short event)
 {
 	struct bufferevent_filtered *bevf = upcast(bev);
-	if (event & EV_WRITE)
+	if ((event & EV_WRITE) && evbuffer_get_length(bev->output))
 		BEV_RESET_GENERIC_WRITE_TIMEOUT(bev);
 
 	if (event & EV_READ) {
@@ -301,6 +301,7 @@ be_filter_process_input(struct bufferevent_filtered *bevf,
 {
 	enum bufferevent_filter_result res;
 	struct bufferevent *bev = downcast(bevf);
+	size_t orig_len = evbuffer_get_length(bev->input);
 
 	if (state == BEV_NORMAL) {
 		/* If we're in 'normal' mode, don't urge data on the filter
@@ -326,7 +327,10 @@ be_filter_process_input(struct bufferevent_filtered *bevf,
 		 evbuffer_get_length(bevf->underlying->input) &&
 		 !be_readbuf_full(bevf, state));
 
-	if (*processed_out)
+	/* Restart the read timeout only if data really arrived and we are
+	 * reading (a flush runs the filter even when we are not). */
+	if (evbuffer_get_length(bev->input) > orig_len &&
+	    (bev->enabled & EV_READ) && !bevf->bev.read_suspended)
 		BEV_RESET_GENERIC_READ_TIMEOUT(bev);
 
 	return res;
@@ -406,8 +410,16 @@ be_filter_process_output(struct bufferevent_filtered *bevf,
 	evbuffer_cb_set_flags(bufev->output,bevf->outbuf_cb,
 	    EVBUFFER_CB_ENABLED);
 
-	if (*processed_out)
-		BEV_RESET_GENERIC_WRITE_TIMEOUT(bufev);
+	if (*processed_out) {
+		/* The write timeout runs only while we are enabled and data
+		 * is still waiting in our output buffer. */
+		if ((bufev->enabled & EV_WRITE) &&
+		    !bevf->bev.write_suspended &&
+		    evbuffer_get_length(bufev->output))
+			BEV_RESET_GENERIC_WRITE_TIMEOUT(bufev);
+		else
+			BEV_DEL_GENERIC_WRITE_TIMEOUT(bufev);
+	}
 
 	return res;
 }
@@ -426,6 +438,14 @@ bufferevent_filtered_outbuf_cb(struct evbuffer *buf,
 		 * process it, if we should. */
 		bufferevent_incref_and_lock_(bev);
 		be_filter_process_output(bevf, BEV_NORMAL, &processed_any);
+		if (!processed_any && cbinfo->orig_size == 0 &&
+		    evbuffer_get_length(buf) &&
+		    (bev->enabled & EV_WRITE) &&
+		    !bevf->bev.write_suspended) {
+			/* The output buffer just became non-empty and could
+			 * not be passed on: the write timeout starts now. */
+			BEV_RESET_GENERIC_WRITE_TIMEOUT(bev);
+		}
 		bufferevent_decref_and_unlock_(bev);
 	}
 }
